@@ -68,6 +68,7 @@ func c04Config(name string, thorough bool) *c04Cfg {
 		explore.Must(false, "unknown part %s", name)
 	}
 	c.name = name
+	c.wide = thorough
 	return c
 }
 
@@ -93,7 +94,7 @@ func c04Rule(c *c04Cfg) string {
 	}
 	switch c.mode {
 	case "send":
-		return base + "alphabet: Write(1|3 cells), popStreamFrame(budget = header+1 byte | header+1 cell | full packet), ack(oldest)/lose(any) of popped frames via their ackhandler.FrameHandler, MAX_STREAM_DATA(initial-1|+2 cells), MAX_DATA(initial-1|+2 cells) incl. stale/duplicate/reordered, Close, CancelWrite, STOP_SENDING; connection IsNewlyBlocked queried after every pop as framer.Append does; oracle: sender credit ledger"
+		return base + "alphabet: Write(1|3 cells), popStreamFrame(budget = header+1 byte | header+1 cell | full packet), ack(oldest)/lose(any) of popped frames via their ackhandler.FrameHandler, MAX_STREAM_DATA / MAX_DATA(initial-1|+2 cells; thorough: initial-1|+1|+3 resp. +4) incl. stale/duplicate/reordered, Close, CancelWrite, STOP_SENDING; connection IsNewlyBlocked queried after every pop as framer.Append does; oracle: sender credit ledger"
 	case "sendbig":
 		return base + fmt.Sprintf("as part send (small Write: 1 cell only), plus Write(%d bytes) > frame buffer, run in a goroutine that stays blocked across operations until enough was popped; oracle: sender credit ledger", c.bigLen)
 	case "framer":
@@ -161,11 +162,19 @@ func (w *c04World) opsSend() []explore.Op {
 		}
 	}
 	for s := 0; s < 2; s++ {
-		for _, v := range []int{c.sndS + 2, c.sndS - 1} {
+		vals := []int{c.sndS + 2, c.sndS - 1}
+		if c.wide {
+			vals = []int{c.sndS + 1, c.sndS - 1, c.sndS + 3}
+		}
+		for _, v := range vals {
 			ops = append(ops, explore.Op{N: "msd", A: s, B: v})
 		}
 	}
-	for _, v := range []int{c.sndC + 2, c.sndC - 1} {
+	vals := []int{c.sndC + 2, c.sndC - 1}
+	if c.wide {
+		vals = []int{c.sndC + 1, c.sndC - 1, c.sndC + 4}
+	}
+	for _, v := range vals {
 		ops = append(ops, explore.Op{N: "md", A: v})
 	}
 	if len(w.inflight) > 0 {
